@@ -249,7 +249,68 @@ macro_rules! vec_case {
     (@zero $T:ident, $other:tt) => { Some(<$T as bytemuck::Zeroable>::zeroed()) };
 }
 
-fn mint_vec<T: hx::tv::TV>(_rep: &mut Report, _c: &Value) {}
+/// mint: converting to the mint type and back is the identity, lane by lane and bit for bit, in both directions (Vector and Point forms,
+/// Quaternion for the quaternions); a value built directly in the mint type imports to the same lanes
+trait MintChk: hx::tv::TV { fn mint_chk(b: &[u64]) -> Option<String>; }
+macro_rules! mint_impl {
+    (2, $S:ty, $($T:ident),+) => {$( impl MintChk for $T { fn mint_chk(b: &[u64]) -> Option<String> {
+        use hx::tv::{Scalar, TV};
+        let v = <$T as TV>::from_bits(b);
+        let f = |x: u64| <$S as Scalar>::from_u64(x);
+        let m: mint::Vector2<$S> = v.into();
+        if [m.x.to_u64(), m.y.to_u64()] != [b[0], b[1]] { return Some("into mint::Vector2".into()); }
+        if <$T>::from(m).to_bits() != b { return Some("mint::Vector2 round trip".into()); }
+        if <$T>::from(mint::Vector2 { x: f(b[0]), y: f(b[1]) }).to_bits() != b { return Some("from mint::Vector2".into()); }
+        let p: mint::Point2<$S> = v.into();
+        if [p.x.to_u64(), p.y.to_u64()] != [b[0], b[1]] || <$T>::from(p).to_bits() != b { return Some("mint::Point2 round trip".into()); }
+        None } } )+};
+    (3, $S:ty, $($T:ident),+) => {$( impl MintChk for $T { fn mint_chk(b: &[u64]) -> Option<String> {
+        use hx::tv::{Scalar, TV};
+        let v = <$T as TV>::from_bits(b);
+        let f = |x: u64| <$S as Scalar>::from_u64(x);
+        let m: mint::Vector3<$S> = v.into();
+        if [m.x.to_u64(), m.y.to_u64(), m.z.to_u64()] != [b[0], b[1], b[2]] { return Some("into mint::Vector3".into()); }
+        if <$T>::from(m).to_bits() != b { return Some("mint::Vector3 round trip".into()); }
+        if <$T>::from(mint::Vector3 { x: f(b[0]), y: f(b[1]), z: f(b[2]) }).to_bits() != b { return Some("from mint::Vector3".into()); }
+        let p: mint::Point3<$S> = v.into();
+        if [p.x.to_u64(), p.y.to_u64(), p.z.to_u64()] != [b[0], b[1], b[2]] || <$T>::from(p).to_bits() != b { return Some("mint::Point3 round trip".into()); }
+        None } } )+};
+    (4, $S:ty, $($T:ident),+) => {$( impl MintChk for $T { fn mint_chk(b: &[u64]) -> Option<String> {
+        use hx::tv::{Scalar, TV};
+        let v = <$T as TV>::from_bits(b);
+        let f = |x: u64| <$S as Scalar>::from_u64(x);
+        let m: mint::Vector4<$S> = v.into();
+        if [m.x.to_u64(), m.y.to_u64(), m.z.to_u64(), m.w.to_u64()] != [b[0], b[1], b[2], b[3]] { return Some("into mint::Vector4".into()); }
+        if <$T>::from(m).to_bits() != b { return Some("mint::Vector4 round trip".into()); }
+        if <$T>::from(mint::Vector4 { x: f(b[0]), y: f(b[1]), z: f(b[2]), w: f(b[3]) }).to_bits() != b { return Some("from mint::Vector4".into()); }
+        None } } )+};
+    (q, $S:ty, $($T:ident),+) => {$( impl MintChk for $T { fn mint_chk(b: &[u64]) -> Option<String> {
+        use hx::tv::{Scalar, TV};
+        let v = <$T as TV>::from_bits(b);
+        let f = |x: u64| <$S as Scalar>::from_u64(x);
+        let m: mint::Quaternion<$S> = v.into();
+        if [m.v.x.to_u64(), m.v.y.to_u64(), m.v.z.to_u64(), m.s.to_u64()] != [b[0], b[1], b[2], b[3]] { return Some("into mint::Quaternion (v = xyz, s = w)".into()); }
+        if <$T>::from(m).to_bits() != b { return Some("mint::Quaternion round trip".into()); }
+        if <$T>::from(mint::Quaternion { v: mint::Vector3 { x: f(b[0]), y: f(b[1]), z: f(b[2]) }, s: f(b[3]) }).to_bits() != b { return Some("from mint::Quaternion".into()); }
+        None } } )+};
+}
+mint_impl!(2, f32, Vec2); mint_impl!(3, f32, Vec3, Vec3A); mint_impl!(4, f32, Vec4); mint_impl!(q, f32, Quat);
+mint_impl!(2, f64, DVec2); mint_impl!(3, f64, DVec3); mint_impl!(4, f64, DVec4); mint_impl!(q, f64, DQuat);
+mint_impl!(2, i8, I8Vec2); mint_impl!(3, i8, I8Vec3); mint_impl!(4, i8, I8Vec4); mint_impl!(2, u8, U8Vec2); mint_impl!(3, u8, U8Vec3); mint_impl!(4, u8, U8Vec4);
+mint_impl!(2, i16, I16Vec2); mint_impl!(3, i16, I16Vec3); mint_impl!(4, i16, I16Vec4); mint_impl!(2, u16, U16Vec2); mint_impl!(3, u16, U16Vec3); mint_impl!(4, u16, U16Vec4);
+mint_impl!(2, i32, IVec2); mint_impl!(3, i32, IVec3); mint_impl!(4, i32, IVec4); mint_impl!(2, u32, UVec2); mint_impl!(3, u32, UVec3); mint_impl!(4, u32, UVec4);
+mint_impl!(2, i64, I64Vec2); mint_impl!(3, i64, I64Vec3); mint_impl!(4, i64, I64Vec4); mint_impl!(2, u64, U64Vec2); mint_impl!(3, u64, U64Vec3); mint_impl!(4, u64, U64Vec4);
+mint_impl!(2, usize, USizeVec2); mint_impl!(3, usize, USizeVec3); mint_impl!(4, usize, USizeVec4);
+fn mint_vec<T: MintChk>(rep: &mut Report, c: &Value) {
+    if c["len"].as_i64().unwrap() >= 0 { return; }
+    let sc = c["ty"]["sc"].as_str().unwrap();
+    let el: Vec<u64> = c["exp"]["elems"].as_array().unwrap().iter().map(|t| elem_bits(sc, t.as_str().unwrap())).collect();
+    if el.len() != T::N { return; }
+    rep.evals += 1;
+    if let Some(what) = T::mint_chk(&el) {
+        rep.mismatch(json!({"prop": "C19", "ty": T::NAME, "op": format!("mint: {what}"), "elems": c["exp"]["elems"], "case": c}));
+    }
+}
 
 fn run_case(rep: &mut Report, c: &Value) {
     let name = c["ty"]["name"].as_str().unwrap().to_string();
@@ -274,6 +335,7 @@ fn run_case(rep: &mut Report, c: &Value) {
         let is_pod = Probe::<$Q>::IS_POD;
         check_type::<$Q>(rep, c, |b| <$Q as TV>::from_bits(b), |q| q.to_bits(), pod_bytes!($Q), is_pod, Some(<$Q as bytemuck::Zeroable>::zeroed()));
         let _ = <$Q as Acc>::konst;
+        mint_vec::<$Q>(rep, c);
     }}; }
     macro_rules! mask { ($B:ident, [$($i:literal),+]) => {{
         check_type::<$B>(rep, c, |b| $B::new($(b[$i] != 0),+), |m| { let a: [bool; { [$($i),+].len() }] = (*m).into(); a.iter().map(|x| *x as u64).collect() }, None, false, None);
